@@ -206,6 +206,24 @@ Theorem C09_lset_compose : forall t v,
 Proof. intros t v. split; [exact (lset_spec t v)|exact (rset_spec t v)]. Qed.
 Print Assumptions C09_lset_compose.
 
+(* ---- concatenation when memory is short, for ALL free-space readings (before / after the garbage
+        collection that the reservation may run): String too long depends on the length only and takes
+        precedence over Out of string space; Out of string space exactly when the result is within the limit
+        and does not fit even after the collection; with more than 255 bytes free this is C09_concat *)
+Theorem C09_concat_memory : forall free_before free_after a b,
+  (concat_mem free_before free_after a b = Err STRING_TOO_LONG <-> (255 < length (a ++ b))%nat) /\
+  (concat_mem free_before free_after a b = Err OUT_OF_STRING_SPACE <->
+     (length (a ++ b) <= 255)%nat /\ free_before <= zlen (a ++ b) /\ free_after <= zlen (a ++ b)) /\
+  ((length (a ++ b) <= 255)%nat -> zlen (a ++ b) < free_before \/ zlen (a ++ b) < free_after ->
+     concat_mem free_before free_after a b = Ok (a ++ b)) /\
+  (255 < free_before -> concat_mem free_before free_after a b = concat a b).
+Proof.
+  intros f0 f1 a b. split; [exact (store_mem_too_long_iff f0 f1 (a ++ b))|].
+  split; [exact (store_mem_oss_iff f0 f1 (a ++ b))|].
+  split; [exact (proj2 (proj2 (store_mem_spec f0 f1 (a ++ b))))|exact (store_mem_plenty f0 f1 (a ++ b))].
+Qed.
+Print Assumptions C09_concat_memory.
+
 (* ---- non-vacuity *)
 Example C09_nonvacuous :
   let s := [65; 66; 67; 68; 69; 70] in
